@@ -55,7 +55,7 @@ func main() {
 			// a function literal: NewConn$2
 			if base := p.Func(args[1], args[2][:i]); base != nil {
 				for _, l := range core.Closures(base) {
-					if l.Name() == args[2] {
+					if l.Name() == args[2] || strings.HasSuffix(args[2], "."+l.Name()) {
 						fn = l
 					}
 				}
